@@ -19,7 +19,7 @@ import (
 
 type C19Msg struct {
 	Helper int    `json:"helper"` // 0 Insert 1 Update 2 UpdateWithOldValue 3 Delete 4 DeleteWithOldValue 5 SnapshotStart 6 SnapshotEnd 7 Reset
-	Entity int    `json:"entity"` // 0 SUser 1 SOrder 2 SNamed
+	Entity int    `json:"entity"` // 0 SUser 1 SOrder 2 SNamed 3 []string 4 map[string]int
 	Key    string `json:"key"`
 	V      int    `json:"v"`
 	TxID   string `json:"txid,omitempty"`
@@ -50,7 +50,7 @@ func genC19(rt *rapid.T) core.Scenario {
 	sc := &C19Scenario{Store: StoreCfg{Kind: rapid.SampledFrom([]string{"mem", "mem", "sqlite", "ds"}).Draw(rt, "store")}}
 	n := rapid.IntRange(1, 12).Draw(rt, "nMsgs")
 	for i := 0; i < n; i++ {
-		m := C19Msg{Helper: rapid.IntRange(0, 7).Draw(rt, "helper"), Entity: rapid.IntRange(0, 2).Draw(rt, "entity"),
+		m := C19Msg{Helper: rapid.IntRange(0, 7).Draw(rt, "helper"), Entity: rapid.IntRange(0, 4).Draw(rt, "entity"),
 			Key: rapid.SampledFrom(c19Keys).Draw(rt, "key"), V: rapid.IntRange(0, 9).Draw(rt, "v")}
 		if rapid.IntRange(0, 2).Draw(rt, "tx") == 2 {
 			m.TxID = rapid.SampledFrom([]string{"tx-1", "", "ü"}).Draw(rt, "txid")
@@ -106,8 +106,12 @@ func (m C19Msg) build() (any, *state.ChangeMessage, error) {
 		cm, err = buildChange(m.Helper, m.Key, sUser(m.V), sUser(m.V+1), opts)
 	case 1:
 		cm, err = buildChange(m.Helper, m.Key, sOrder(m.V), sOrder(m.V+1), opts)
-	default:
+	case 2:
 		cm, err = buildChange(m.Helper, m.Key, SNamed{N: m.V}, SNamed{N: m.V + 1}, opts)
+	case 3:
+		cm, err = buildChange(m.Helper, m.Key, []string{fmt.Sprint(m.V), "t"}, []string{}, opts)
+	default:
+		cm, err = buildChange(m.Helper, m.Key, map[string]int{fmt.Sprintf("k%d", m.V): m.V}, map[string]int{}, opts)
 	}
 	if err != nil {
 		return nil, nil, err
@@ -134,7 +138,7 @@ func (m C19Msg) entityTypeName() string {
 	if m.Type != "" && m.Type != "-" {
 		return m.Type
 	}
-	return []string{state.EntityType(SUser{}), state.EntityType(SOrder{}), state.EntityType(SNamed{})}[m.Entity]
+	return []string{state.EntityType(SUser{}), state.EntityType(SOrder{}), state.EntityType(SNamed{}), state.EntityType([]string{}), state.EntityType(map[string]int{})}[m.Entity]
 }
 
 func corruptBytes(data []byte, m C19Msg, other []byte) []byte {
@@ -221,6 +225,18 @@ func c19Normalize(coll string, val []byte) (string, bool) {
 			return "", false
 		}
 		return string(mustJSON(v)), true
+	case "tags":
+		var v []string
+		if json.Unmarshal(val, &v) != nil {
+			return "", false
+		}
+		return string(mustJSON(v)), true
+	case "counts":
+		var v map[string]int
+		if json.Unmarshal(val, &v) != nil {
+			return "", false
+		}
+		return string(mustJSON(v)), true
 	default:
 		var v SNamed
 		if json.Unmarshal(val, &v) != nil {
@@ -271,7 +287,8 @@ func (sc *C19Scenario) Execute(t *testing.T) *core.Outcome {
 			out.HarnessErr = fmt.Sprintf("log has %d events for %d messages (%v)", len(stored), len(sc.Msgs), err)
 			return
 		}
-		known := map[string]string{state.EntityType(SUser{}): "user", state.EntityType(SOrder{}): "order", state.EntityType(SNamed{}): "named"}
+		known := map[string]string{state.EntityType(SUser{}): "user", state.EntityType(SOrder{}): "order", state.EntityType(SNamed{}): "named",
+			state.EntityType([]string{}): "tags", state.EntityType(map[string]int{}): "counts"}
 		mat := newC18Mat(false)
 		for i, m := range sc.Msgs {
 			ev := *stored[i]
